@@ -401,6 +401,7 @@ func runC09(w *World, r *Report) {
 
 	// 4. both parents exist before admission
 	parentsExist(w, r, "parents-exist")
+	everyParentLinked(w, r, "every-looked-up-parent-is-linked")
 
 	// 5. weight and signing
 	r.rule("weight-and-seal", "CreateLeaf seals calcNewWeight(l.Weight, r.Weight) of the two referenced parents; NewVertex returns only the candidate it signed; sign stores Hash/Signature from signer.Sign(initData())", 4)
@@ -2456,4 +2457,69 @@ func runsOnlyDeferred(fn *ssa.Function) bool {
 		}
 	})
 	return n > 0 && all
+}
+
+// everyParentLinked: the list the edge loop of the gossip admission ranges over grows on every turn of the loop that looked
+// the declared parents up — a turn that comes back to the head of the loop with the list unchanged leaves the admitted
+// vertex without the edge to that parent (its ancestry, and every balance walked through it, then misses the history below).
+func everyParentLinked(w *World, r *Report, rule string) {
+	r.rule(rule, "addLeafMemorized: the list of edge sources (the value ranged by the AddEdge loop) is built by appends inside the loop over the declared parents, and no path through the loop body comes back to the loop head with the list as it was — whether the parent still is a tip decides only whether it is validated, not whether the new vertex is linked to it", 1)
+	f := w.fx(r, "accountant", "AccountingBook", "addLeafMemorized")
+	if f == nil {
+		return
+	}
+	n := 0
+	for _, ed := range deepCalls(f.fn, byName(nAddEdge), deepDepth) {
+		_, a := callArgs(ed.c)
+		sx, ok := vertexOfHashArg(a[0])
+		if !ok {
+			continue
+		}
+		ld, ok := sx.(*ssa.UnOp)
+		if !ok {
+			continue
+		}
+		ia, ok := ld.X.(*ssa.IndexAddr)
+		if !ok {
+			continue
+		}
+		for _, ap := range appendsFeeding(ed.argValue(ia.X)) {
+			h, ok := ap.Call.Args[0].(*ssa.Phi)
+			if !ok {
+				continue
+			}
+			n++
+			var unchanged func(v ssa.Value, seen map[ssa.Value]bool) bool
+			unchanged = func(v ssa.Value, seen map[ssa.Value]bool) bool {
+				if v == ssa.Value(h) {
+					return true
+				}
+				if seen[v] {
+					return false
+				}
+				seen[v] = true
+				if p, ok := v.(*ssa.Phi); ok {
+					for _, e := range p.Edges {
+						if unchanged(e, seen) {
+							return true
+						}
+					}
+				}
+				return false
+			}
+			bad := ""
+			for k, e := range h.Edges {
+				if !h.Block().Dominates(h.Block().Preds[k]) {
+					continue // the value the list has before the loop
+				}
+				if unchanged(e, map[ssa.Value]bool{}) {
+					bad = fmt.Sprintf("the loop over the declared parents can come back to its head with the list of edge sources unchanged: the append at %s is skipped on that path, the vertex is admitted without the edge to that parent", lineOf(w, ap))
+				}
+			}
+			r.check(bad == "", rule, shortFn(ap.Parent())+"/edge-sources", lineOf(w, ap), "every completed turn of the parent loop adds its parent to the edge sources", bad)
+		}
+	}
+	if n == 0 {
+		r.undecided(rule, "addLeafMemorized/edge-sources", w.Pos(f.fn.Pos()), "the list of edge sources must be identifiable", "no append inside a loop feeds the AddEdge loop")
+	}
 }
